@@ -43,10 +43,13 @@ def construct_impl(ctx):
             continue
         seen.add(f.qual)
         fs = summarize(prog, f)
+        from ..helpers import resolve_call
         for _pc, t, node, _st in fs.returns:
             if node is not None and t[0] == "call" and t[1][0] in ("dyn", "func") and t[2] \
                     and any(x[0] == "global" and x[1] in prog.classes and prog.classes[x[1]].name.endswith("Response")
                             for x in subterms(t[1])) and strip(t[2][0])[0] == "slice":
+                if isinstance(getattr(node, "value", None), ast.Call) and getattr(resolve_call(prog, f, node.value), "qual", None) in prog.funcs:
+                    continue          # only handed through from a helper that was seen through: the helper is the one that builds
                 ctx.fn(f.qual)
                 return f
         for c in [n for n in ast.walk(f.node) if isinstance(n, ast.Call)]:
@@ -166,7 +169,8 @@ def run(ctx):
     ea = EventAnalysis(must=True, on_stmt=lambda node, st: (["frame_ok"] if is_call_stmt(node, FRAME_VALIDATE) else []) +
                        (["body_ok"] if is_call_stmt(node, RESP_VALIDATE) else []))
     comp = run_events(prog, ci, ea)
-    frame_p = ci.params[-1]
+    # the frame is the first parameter behind the receiver (optional switches may follow it)
+    frame_p = ci.params[1] if (ci.kind in ("method", "classmethod") and len(ci.params) > 1) else ci.params[0]
     for (st_ev, node), (pc, ret, _n2, rst) in zip(comp.returns, cs.returns):
         if node is None:
             continue
@@ -454,4 +458,4 @@ def run(ctx):
     ctx.require_min("validator_raises", 2)
     ctx.require_min("construct_returns", 1)
     ctx.require_min("valid_list_appends", 1)
-    ctx.require_min("update_state_calls", 3)
+    ctx.require_min("update_state_calls", 1)          # (three on the pinned tree; loops that walk responses may legitimately be merged into one helper)
